@@ -213,7 +213,8 @@ class GoGen:
         if op in ("&&", "||", "==>", "<==>"):
             x, y = self.tr(a, old), self.tr(b, old)
             if op == "==>":
-                return ("bool", "imp(%s, %s)" % (x[1], y[1]), None)
+                # lazily, like Go's ||: the consequent may index a slice whose length the antecedent guards
+                return ("bool", "(!(%s) || (%s))" % (x[1], y[1]), None)
             if op == "<==>":
                 return ("bool", "((%s) == (%s))" % (x[1], y[1]), None)
             return ("bool", "((%s) %s (%s))" % (x[1], op, y[1]), None)
@@ -401,6 +402,8 @@ def replay_obligation(repo, ob, rep):
         return False
     if not ob.result or ob.result.status != "sat" or not ob.result.model:
         return False
+    if ob.mode in ("ring", "group"):
+        return False    # the model is a truth assignment of polynomial equalities, not concrete elements (see sampled.py)
     prog = run.prog
     f = run.f
     c = run.c
